@@ -1,10 +1,12 @@
 #!/bin/bash
 # sweep.sh <first-seed> <last-seed> [tier]   — every claimed check under each VERIF_SEED in the range;
 # prints one line per (seed, property) and the full output of any check that does not exit 0.
-# Exit 0 iff every check exited 0. Meant for `vp run -- ./sweep.sh 1 24` (uses /repo itself).
+# Exit 0 iff every check exited 0. Meant for `vp run --with-repo -- ./sweep.sh 1 24`.
 set -u
 cd "$(dirname "$0")"
 lo="${1:-1}"; hi="${2:-8}"; tier="${3:-quick}"; bad=0
+# under `vp run --with-repo` the checks use the snapshot of /repo's HEAD instead of /repo itself
+[ -n "${VP_RUN_REPO:-}" ] && export RSBDD_REPO="$VP_RUN_REPO"
 for s in $(seq "$lo" "$hi"); do
   for p in C02 C10 C11 C12 C13 C14 C18 C19; do
     out=$(VERIF_SEED=$s ./check $p "$tier" 2>&1); rc=$?
